@@ -55,7 +55,7 @@ InitCtx(ev) ==
    dev |-> [mk |-> ev.dev[1], seed |-> ev.dev[2], val |-> ev.dev[3], len |-> ev.dev[4],
             img |-> IF "img" \in DOMAIN ev THEN ev.img ELSE <<>>],
    io |-> [ik |-> ev.io[1], seed |-> ev.io[2], len |-> ev.io[3]], iom |-> CellsOf(ev.iocells),
-   nin |-> IF "nin" \in DOMAIN ev THEN ev.nin ELSE 0,
+   nin |-> IF "nin" \in DOMAIN ev THEN ev.nin ELSE 0, seen |-> <<>>,
    rd |-> <<>>, wr |-> <<>>, pio |-> <<>>, halt |-> ev.h = 1, hc |-> <<0, 0>>,
    ovl |-> NoOvl, v |-> 0, u |-> 0, ralt |-> FALSE, tag |-> "", pend |-> PendOf(ev.pend),
    aei |-> FALSE, rslack |-> 0]
@@ -76,7 +76,7 @@ MemBad(prev, o, md) ==
   LET logged == CellsOf(md)
       touched == {o.wr[i][1] : i \in 1 .. Len(o.wr)}
   IN \/ \E a \in DOMAIN logged : Peek(o, a) # logged[a]
-     \/ \E a \in touched : a \notin DOMAIN logged /\ Peek(o, a) # Peek(prev, a)
+     \/ \E a \in touched : a \notin DOMAIN logged /\ ~IsVolatile(o, a) /\ Peek(o, a) # Peek(prev, a)
 
 Outs(pio) == SelectSeq(pio, LAMBDA e : e[1] = 1)
 
@@ -113,7 +113,12 @@ Adopt(prev, o, ev) ==
                                              outs[i][2] = p /\ \A j \in (i + 1) .. Len(outs) : outs[j][2] # p
                                   IN outs[i][3]] @@ @
                           ELSE @,
-                  !.nin = @ + Ins(ev.pio),
+                  !.nin = @ + Ins(ev.pio), !.seen = IF prev.dev.mk = "volatile" /\ "rd" \in DOMAIN ev
+                           THEN LET vs == {a \in {ev.rd[i] : i \in 1 .. Len(ev.rd)} : a >= prev.dev.val}
+                                IN [a \in vs \cup DOMAIN @ |->
+                                      (IF a \in DOMAIN @ THEN @[a] ELSE 0)
+                                      + Cardinality({i \in 1 .. Len(ev.rd) : ev.rd[i] = a})]
+                           ELSE @,
                   !.aei = (o.tag = "EI"), !.tag = o.tag]
 
 Bump(f, k) == IF k \in DOMAIN f THEN [f EXCEPT ![k] = @ + 1] ELSE (k :> 1) @@ f
@@ -353,13 +358,21 @@ Expected(x, calls, i) ==
         ELSE IF calls[i][1] = 9 THEN StrAt(x, calls[i][2], 70000) ELSE <<>>) \o Expected(x, calls, i + 1)
 EvCPM ==
   /\ IsEv("cpm") /\ UNCHANGED c /\ KeepSK
-  /\ LET asp == (IF Ev.con = Expected(c, Ev.calls, 1) THEN {} ELSE {"console"})
+  /\ LET asp == (IF Ev.con = Expected(c, Ev.calls, 1) /\ ("stale" \notin DOMAIN Ev \/ Ev.stale = 0)
+                 THEN {} ELSE {"console"})
                 \cup (IF c.r.PC = 65283 /\ c.halt /\ c.r.SP = Ev.sp0 THEN {} ELSE {"cpm-return"})
      IN IF asp = {} THEN bad' = bad /\ cov' = Bump(cov, "CPM program")
         ELSE /\ bad' = IF Len(bad) < MaxBad
                        THEN Append(bad, [line |-> l, asp |-> asp, tag |-> "CPM program", pc |-> c.r.PC, f |-> 0, u |-> 0])
                        ELSE bad
              /\ cov' = Bump(cov, "REJECTED")
+
+\* host actions with no effect on the machine state: a value copy of the CPU replaces the CPU
+\* ("fork"), the console writer is reconfigured ("con"); and one that loads the registers ("regs":
+\* the next program is started on the same CPU - the halted indication stays as it is)
+EvFork == IsEv("fork") /\ UNCHANGED <<c, bad, cov>> /\ KeepSK
+EvCon  == IsEv("con") /\ UNCHANGED <<c, bad, cov>> /\ KeepSK
+EvRegs == IsEv("regs") /\ c' = [c EXCEPT !.r = RegsOf(Ev.r)] /\ UNCHANGED <<bad, cov>> /\ KeepSK
 
 EvMark == IsEv("mark") /\ slot' = c /\ UNCHANGED <<c, bad, cov, kf>>
 
@@ -384,7 +397,7 @@ Done ==
   /\ PrintT(<<"TRACE-RESULT", ToJson([consumed |-> l - 1, bad |-> bad, cov |-> cov, kf |-> kf])>>)
   /\ done' = TRUE /\ UNCHANGED <<l, c, bad, cov, rs, slot, kf>>
 
-TraceNext == EvInit \/ EvStep \/ EvRun \/ EvRaise \/ EvPoke \/ EvMark \/ EvCmp \/ EvWhole \/ EvCPM \/ EvPanic \/ EvMirror \/ Done
+TraceNext == EvInit \/ EvStep \/ EvRun \/ EvRaise \/ EvPoke \/ EvMark \/ EvCmp \/ EvWhole \/ EvCPM \/ EvPanic \/ EvMirror \/ EvFork \/ EvCon \/ EvRegs \/ Done
 TraceSpec == TraceInit /\ [][TraceNext]_vars
 
 \* every line was consumed (a line no action can take would stop the run early)
